@@ -3,7 +3,7 @@
 From Coq Require Import ZArith QArith List Bool String Ascii.
 From Coq Require Import Floats.PrimFloat.
 From PAFCommon Require Import PyFloat PyNum.
-From PAFC07 Require Import Gen Model Proofs1 Proofs2 Proofs3 Proofs4 Refute.
+From PAFC07 Require Import Gen Model Proofs1 Proofs2 Proofs3 Proofs4 Proofs5 Proofs6 Refute.
 Import ListNotations.
 Open Scope string_scope.
 Open Scope list_scope.
@@ -37,22 +37,24 @@ Definition model2 : node :=
              ("h", NModel 4 "" "c07_classes.H2" ["inner"; "s"]
                     [("inner", NInst "Plain" ["p"; "q"] None [("p", NFloat 1); ("q", NFloat 2); ("derived", NFloat 3)]);
                      ("s", g12 2)])].
-Example reloadable_inhabited : reloadable model2 = true /\ reloadable emcee = true.
+Example reload_ok_inhabited : reload_ok model2 = true /\ reload_ok emcee = true.
 Proof. split; vm_compute; reflexivity. Qed.
 
-(* the facts read from the source are one of the two states the theorems speak about *)
+(* the compositions that used to change on reload are inside the guard now: arithmetic priors under any
+   variable names, list-built collections, LogGaussian priors, the Drawer search *)
+Example reload_ok_repaired :
+  reload_ok arith_model = true /\ reload_ok list_coll = true /\ reload_ok log_gaussian_model = true /\ reload_ok drawer = true.
+Proof. repeat split; vm_compute; reflexivity. Qed.
+
+Example reload_arith_same_tokens :
+  exists t', reload arith_model = Some t' /\ t' <> arith_model /\ tokens ps0 (reify t') = tokens ps0 (reify arith_model).
+Proof. eexists. split; [vm_compute; reflexivity|]. split; [discriminate | vm_compute; reflexivity]. Qed.
+
+(* the facts read from the source, as they are now (the proofs of Proofs2/3/5 depend on them) *)
 Example code_facts :
-  (compound_idf = None \/ exists fs, compound_idf = Some fs) /\
-  (reload_restores_item_number = false \/ reload_restores_item_number = true) /\
-  (log_gaussian_dict = false \/ log_gaussian_dict = true) /\
-  (drawer_json_readable = false \/ drawer_json_readable = true).
-Proof.
-  repeat split.
-  - destruct compound_idf as [fs|]; [right; exists fs; reflexivity | left; reflexivity].
-  - destruct reload_restores_item_number; [right | left]; reflexivity.
-  - destruct log_gaussian_dict; [right | left]; reflexivity.
-  - destruct drawer_json_readable; [right | left]; reflexivity.
-Qed.
+  compound_idf = Some ["left"; "right"] /\ modified_idf = Some ["prior"] /\
+  reload_restores_item_number = true /\ log_gaussian_dict = true /\ drawer_json_readable = true.
+Proof. repeat split. Qed.
 
 (* contexts exist: the `b` attribute of the model stored under "source" *)
 Example nframe_inhabited :
@@ -105,3 +107,11 @@ Proof.
   - exact nframe_inhabited.
   - apply leaf_prior_upper. exact float_tokens_differ.
 Qed.
+
+(* binary64 sweep: the ranges are inhabited and the predicate is what it says on one point *)
+Example swept_range_inhabited : in_swept_range 100000001 /\ grid_ok 100000001 = true.
+Proof. split; [right; left; split; [discriminate | reflexivity] | vm_compute; reflexivity]. Qed.
+
+(* key rename / added item hypotheses *)
+Example key_hypotheses : visible "lens" = true /\ visible "lens_renamed" = true /\ "lens" <> "lens_renamed".
+Proof. repeat split; discriminate. Qed.
